@@ -78,7 +78,8 @@ impl Gates for NoGates {
 }
 
 const LOCAL_NAMES: [&str; 6] = ["a", "b", "c", "x", "y", "z"];
-const STRS: [&str; 8] = ["", "a", "go", "ml", "x y", "Zz", "0", "héé"];
+// the last four need escapes in the goml literal and in the emitted Go literal
+const STRS: [&str; 12] = ["", "a", "go", "ml", "x y", "Zz", "0", "héé", "a\nb", "q\"q", "b\\s", "\tT"];
 
 /// (name, gate) — gate = shape label closed by an open known finding
 const HOSTILE_FNS: [(&str, &str); 40] = [
